@@ -104,6 +104,53 @@ fn main() {
             }
         }
     }
+    // ---- std::math::u256 -------------------------------------------------------------------------
+    // operands are 8 little-endian 32-bit limbs; on the stack b7 is on top: [b7..b0, a7..a0, ...]
+    type L = [u64; 8];
+    let pats: Vec<L> = {
+        let mut v: Vec<L> = vec![[0; 8], [0xFFFF_FFFF; 8], [1, 0, 0, 0, 0, 0, 0, 0], [0, 0, 0, 0, 0, 0, 0, 0x8000_0000],
+                                 [0xFFFF_FFFF, 0xFFFF_FFFF, 0xFFFF_FFFF, 0xFFFF_FFFF, 0, 0, 0, 0], [0, 0, 0, 0, 0xFFFF_FFFF, 0xFFFF_FFFF, 0xFFFF_FFFF, 0xFFFF_FFFF],
+                                 [0xFFFF_FFFF, 0, 0xFFFF_FFFF, 0, 0xFFFF_FFFF, 0, 0xFFFF_FFFF, 0], [1, 2, 3, 4, 5, 6, 7, 8]];
+        for i in 0..8 { for x in [1u64, 0x8000_0000, 0xFFFF_FFFF] { let mut l = [0u64; 8]; l[i] = x; v.push(l); let mut m = [0xFFFF_FFFFu64; 8]; m[i] = 0xFFFF_FFFF - x; v.push(m); } }
+        // pseudo-random mixes of boundary limbs (fixed LCG)
+        let mut st = 0x9E37_79B9_7F4A_7C15u64;
+        for _ in 0..40 { let mut l = [0u64; 8]; for k in 0..8 { st = st.wrapping_mul(6364136223846793005).wrapping_add(1442695040888963407); l[k] = match (st >> 33) % 6 { 0 => 0, 1 => 1, 2 => 0x8000_0000, 3 => 0xFFFF_FFFE, 4 => 0xFFFF_FFFF, _ => (st >> 16) & 0xFFFF_FFFF }; } v.push(l); }
+        v
+    };
+    let asm256 = |name: &str| asm.compile(format!("use.std::math::u256 begin exec.u256::{name} end")).unwrap();
+    let top_first = |a: &L, b: &L| -> Vec<u64> { let mut v: Vec<u64> = b.iter().rev().cloned().collect(); v.extend(a.iter().rev()); v };
+    let out = |c: &L| -> Vec<u64> { c.iter().rev().cloned().collect() };
+    let add = |a: &L, b: &L| -> L { let mut c = [0u64; 8]; let mut carry = 0u64; for i in 0..8 { let t = a[i] + b[i] + carry; c[i] = t & 0xFFFF_FFFF; carry = t >> 32; } c };
+    let sub = |a: &L, b: &L| -> L { let mut c = [0u64; 8]; let mut br = 0i64; for i in 0..8 { let t = a[i] as i64 - b[i] as i64 - br; if t < 0 { c[i] = (t + (1i64 << 32)) as u64; br = 1; } else { c[i] = t as u64; br = 0; } } c };
+    let mul = |a: &L, b: &L| -> L { let mut c = [0u64; 8]; for i in 0..8 { let mut carry = 0u64; for j in 0..(8 - i) { let t = c[i + j] + a[i] * b[j] + carry; c[i + j] = t & 0xFFFF_FFFF; carry = t >> 32; } } c };
+    let bit = |f: fn(u64, u64) -> u64| move |a: &L, b: &L| -> L { let mut c = [0u64; 8]; for i in 0..8 { c[i] = f(a[i], b[i]); } c };
+    let bin: Vec<(&str, Box<dyn Fn(&L, &L) -> Vec<u64>>)> = vec![
+        ("add_unsafe", Box::new(move |a, b| out(&add(a, b)))), ("sub_unsafe", Box::new(move |a, b| out(&sub(a, b)))), ("mul_unsafe", Box::new(move |a, b| out(&mul(a, b)))),
+        ("and", Box::new({ let f = bit(|x, y| x & y); move |a, b| out(&f(a, b)) })), ("or", Box::new({ let f = bit(|x, y| x | y); move |a, b| out(&f(a, b)) })),
+        ("xor", Box::new({ let f = bit(|x, y| x ^ y); move |a, b| out(&f(a, b)) })), ("eq_unsafe", Box::new(move |a, b| vec![b2(a == b)])),
+    ];
+    for (name, rf) in &bin {
+        let p = asm256(name);
+        let mut shown = 0;
+        for a in &pats { for b in &pats {
+            total += 1;
+            let got = run(&p, &top_first(a, b));
+            let mut e = rf(a, b); e.push(SENT);
+            let bad = match &got { Err(_) => true, Ok(st) => st[..e.len()] != e[..] || st[e.len()..].iter().any(|&x| x != 0) };
+            if bad { fails += 1; if shown < 5 { shown += 1; println!("FAIL u256::{name} a={a:x?} b={b:x?} expected={:?} got={:?}", rf(a, b), got); } }
+        } }
+    }
+    {
+        let p = asm256("iszero_unsafe");
+        let mut shown = 0;
+        for a in &pats {
+            total += 1;
+            let got = run(&p, &out(a));
+            let e = vec![b2(a.iter().all(|&x| x == 0)), SENT];
+            let bad = match &got { Err(_) => true, Ok(st) => st[..e.len()] != e[..] || st[e.len()..].iter().any(|&x| x != 0) };
+            if bad { fails += 1; if shown < 5 { shown += 1; println!("FAIL u256::iszero_unsafe a={a:x?} expected={e:?} got={got:?}"); } }
+        }
+    }
     println!("SUMMARY executions={total} failures={fails} limb_values={}", ls.len());
     std::process::exit(if fails > 0 { 1 } else { 0 });
 }
